@@ -13,7 +13,7 @@ COMMON_ASSUMPTIONS = [
 ]
 
 
-M_GRAD = {"grad-value", "grad-dims", "grad-presence", "backward-panic", "control-flow", "comparison", "observation-panic"}
+M_GRAD = {"replace-gradient-result", "grad-value", "grad-dims", "grad-presence", "backward-panic", "control-flow", "comparison", "observation-panic"}
 M_EVAL = {"eval-set", "eval-once", "eval-adjoint", "eval-order", "eval-flags", "eval-budget-exhausted", "backward-panic"}
 M_TRACK = {"eval-flags", "tracked-flag", "previous-flag", "grad-presence", "grad-tracked", "into_vec-should-succeed", "grad-value", "observation-panic"}
 M_OWN = {"into_vec-should-succeed", "grad-tracked"}
@@ -131,6 +131,12 @@ PROPERTIES = {
             {"name": "single_op_vjp", "cases": FE.c02_cases(tier, seed),
              "what": "one operation per case, backward with a prime-valued seed, every deposited gradient compared: element-wise ops over broadcast pairs and tracked subsets, neg/scale/powf(-2..4)/reciprocal/relu/sum(k)/reshape, matmul (flags, additive term, leading patterns, rank-1 forms), conv (strides 1..3, batches), user operations",
              "require": {"judged": 1500, "passes": 1500}},
+            {"name": "self_operands", "cases": FE.self_operand_cases(tier, seed),
+             "what": "the same array at several operand positions and expressions that repeat or cancel: x/x, a-a, a*a, axpy(0|1, a, a), neg(neg a), relu(a)*a, scale by 1, powf 1, a x a^T, nested reshapes, sum then add back, one node with two consumers and passes from both",
+             "require": {"passes": 60}},
+            {"name": "self_operands_real", "cases": FR.real_self_operand_cases(tier, seed), "spec": "TraceReal", "real": True,
+             "what": "real domain: x/x, exp used twice, softmax on rank 3 and on rows of equal entries, sigmoid of sigmoid, ln of a product, reciprocal times itself",
+             "require": {"real_checked": 300}},
             {"name": "matmul_rank1", "cases": FE.rank1_matmul_cases(tier, seed),
              "what": "matmul with a rank-1 operand next to a rank>=2 operand: vector x matrix, matrix x vector, single-column and single-row partners, sizes 1..3, both flags, batches [], [2], [2,2], every tracked subset, with and without additive term - forward value and every gradient",
              "require": {"passes": 300}},
@@ -196,6 +202,9 @@ PROPERTIES = {
              "require": {"passes": 300, "owned": 30}},
             {"name": "special_values", "cases": FE.special_value_cases(tier, seed + 1), "mask": M_TRACK,
              "what": "tracking rules must not depend on values: all-zero / all-one / equal operands"},
+            {"name": "keep_flags", "cases": FE.keep_flag_cases(tier, seed), "mask": M_TRACK,
+             "what": "which handle decides whether an interior node stores its gradient: every combination of tracked / untracked / start / stop on a result and on a clone of it, before or after it is used as a root or operand (250 programs)",
+             "require": {"passes": 300}},
             {"name": "model_tracking", "cases": FM.c14_cases(tier, seed + 7), "mask": M_TRACK,
              "what": "models with all parameters frozen, empty models and inference loops: the output is untracked and nothing receives a gradient; frozen / unfrozen parameters in training loops",
              "require": {"passes": 50}},
@@ -250,6 +259,9 @@ PROPERTIES = {
             {"name": "variants", "cases": FE.c12_cases(tier, seed), "mask": M_GRAD | {"values", "dims", "unexpected-panic", "immutable"},
              "what": "random programs, each with two handle-transparent variants, plus gradient visibility through clones",
              "require": {"passes": 500}},
+            {"name": "keep_flags", "cases": FE.keep_flag_cases(tier, seed), "mask": M_GRAD | {"tracked-flag"},
+             "what": "flags set on a clone never change the original: every flag operation on a result and on its clone, passes from either handle",
+             "require": {"passes": 300}},
             {"name": "variants_bitwise", "cases": FE.variant_groups(FE.random_cases(seed + 8, 400 if tier == "thorough" else 120, handles=False), None),
              "post": FE.relate_variants, "mask": {"variant-differs"},
              "what": "relation: every operation value and every final gradient of a variant must be bitwise identical (digest) to the base program's",
